@@ -95,6 +95,102 @@ fn build_cli(release: bool) -> Result<PathBuf, String> {
     Ok(target.join(if release { "release" } else { "debug" }).join("avra-rs"))
 }
 
+/// Source names that are not valid UTF-8, and option sets that send both images to one path.
+fn odd_names_and_clashes(ctx: &Ctx, bin: &Path) {
+    use std::ffi::OsString;
+    use std::os::unix::ffi::OsStringExt;
+    let text = "ldi r16, 0x5a\nnop\n.eseg\n.db 1, 2, 3\n";
+    let flash_only = "ldi r16, 0x5a\nnop\n";
+    let base = fw::verif_root().join("build").join(format!("scratch-c18-{}", std::process::id())).join("odd");
+    let decode_is = |p: &Path, img: &[u8]| -> bool { std::fs::read(p).ok().and_then(|t| ihex::decode(&t).ok()).map(|d| ihex::compare(&d, img).is_ok()).unwrap_or(false) };
+    // (1) names
+    for (k, raw) in [b"n\xffame.asm".to_vec(), b"\xfe\xff.asm".to_vec(), b"caf\xe9.v2.asm".to_vec(), b"plain\xc3\xa9.asm".to_vec()].into_iter().enumerate() {
+        let root = base.join(format!("name{}", k));
+        let _ = std::fs::remove_dir_all(&root);
+        let (work, home) = (root.join("work"), root.join("home"));
+        if std::fs::create_dir_all(&work).is_err() || std::fs::create_dir_all(&home).is_err() {
+            ctx.inconclusive("cannot create scratch directories");
+            continue;
+        }
+        let name = OsString::from_vec(raw.clone());
+        let src = work.join(&name);
+        if std::fs::write(&src, text).is_err() {
+            ctx.inconclusive("file system refuses the non-UTF-8 name");
+            continue;
+        }
+        let expected = fw::build_file(&src, &[home.join("cfg").join("avra-rs").join("includes")]);
+        let out = Command::new(bin).arg("-s").arg(&name).current_dir(&work).env("HOME", &home).env("XDG_CONFIG_HOME", home.join("cfg")).output();
+        ctx.eval(1);
+        ctx.count("runs:odd-source-names", 1);
+        ctx.distinct(fw::hash_str(&format!("odd-name-{}", k)));
+        let (Ok(out), Outcome::Ok(exp)) = (out, &expected) else {
+            ctx.inconclusive("cannot run the CLI binary or the library refuses the file");
+            continue;
+        };
+        let stem_raw = &raw[..raw.len() - 4];
+        let mut hex = stem_raw.to_vec();
+        hex.extend(b".hex");
+        let mut eep = stem_raw.to_vec();
+        eep.extend(b".eep.hex");
+        let (hex, eep) = (work.join(OsString::from_vec(hex)), work.join(OsString::from_vec(eep)));
+        let ok = out.status.code() == Some(0) && decode_is(&hex, &exp.code) && decode_is(&eep, &exp.eeprom);
+        let listing: Vec<String> = std::fs::read_dir(&work).map(|rd| rd.flatten().map(|e| format!("{:?}", e.file_name())).collect()).unwrap_or_default();
+        if !ok {
+            ctx.violation(
+                "cli/success/odd-source-name/output-files",
+                format!("source {:?}: exit {:?}, expected {:?} and {:?} holding the images; directory now holds {:?}", name, out.status.code(), hex.file_name().unwrap(), eep.file_name().unwrap(), listing),
+                json!({"odd_name_bytes": raw, "source": text, "exit": out.status.code(), "stdout": String::from_utf8_lossy(&out.stdout), "directory": listing}),
+            );
+        }
+        let _ = std::fs::remove_dir_all(&root);
+    }
+    // (2) both images to one path: nothing can hold both, so the run must fail visibly; with one image only
+    // the same options are fine
+    for (k, (opts, both)) in [
+        (vec!["-o", "same.hex", "-e", "same.hex"], true),
+        (vec!["-e", "prog.hex"], true),
+        (vec!["-o", "prog.eep.hex"], true),
+        (vec!["-o", "./x/../same.hex", "-e", "same.hex"], false), // different spellings of one file: only observed
+        (vec!["-o", "same.hex", "-e", "same.hex"], false),
+    ].into_iter().enumerate() {
+        let flash_only_case = k == 4;
+        let root = base.join(format!("clash{}", k));
+        let _ = std::fs::remove_dir_all(&root);
+        let (work, home) = (root.join("work"), root.join("home"));
+        if std::fs::create_dir_all(work.join("x")).is_err() || std::fs::create_dir_all(&home).is_err() {
+            ctx.inconclusive("cannot create scratch directories");
+            continue;
+        }
+        let src = work.join("prog.asm");
+        let _ = std::fs::write(&src, if flash_only_case { flash_only } else { text });
+        let expected = fw::build_file(&src, &[home.join("cfg").join("avra-rs").join("includes")]);
+        let out = Command::new(bin).arg("-s").arg("prog.asm").args(&opts).current_dir(&work).env("HOME", &home).env("XDG_CONFIG_HOME", home.join("cfg")).output();
+        ctx.eval(1);
+        ctx.count("runs:both-images-to-one-path", 1);
+        ctx.distinct(fw::hash_str(&format!("clash-{}", k)));
+        let (Ok(out), Outcome::Ok(exp)) = (out, &expected) else {
+            ctx.inconclusive("cannot run the CLI binary");
+            continue;
+        };
+        let said = !out.stdout.is_empty() || !out.stderr.is_empty();
+        let case = json!({"clash_args": opts, "source": if flash_only_case { flash_only } else { text }, "exit": out.status.code(), "stdout": String::from_utf8_lossy(&out.stdout)});
+        if flash_only_case {
+            if !(out.status.code() == Some(0) && decode_is(&work.join("same.hex"), &exp.code)) {
+                ctx.violation("cli/success/same-path-one-image/flash-file-content", format!("{:?} with a flash image only: exit {:?}", opts, out.status.code()), case);
+            }
+        } else if both {
+            let flash_target = work.join(if opts[0] == "-e" { "prog.hex" } else { opts[1] });
+            let holds_flash = decode_is(&flash_target, &exp.code);
+            if out.status.code() == Some(0) && !holds_flash {
+                ctx.violation("cli/both-images-to-one-path/flash-image-lost-silently", format!("{:?}: exit 0 but {} does not hold the flash image", opts, flash_target.display()), case);
+            } else if out.status.code() != Some(0) && !said {
+                ctx.violation("cli/both-images-to-one-path/failure-not-reported", format!("{:?}: exit {:?} without a word", opts, out.status.code()), case);
+            }
+        }
+        let _ = std::fs::remove_dir_all(&root);
+    }
+}
+
 struct Case<'a> {
     src: &'a Src,
     stem: &'static str,
@@ -362,6 +458,7 @@ pub fn run(ctx: &Ctx) -> i32 {
         }
     }
     fw::par_for(cs.len() as u64, 1, |i| check(ctx, &bin, "dev", &cs[i as usize], i as usize, false));
+    odd_names_and_clashes(ctx, &bin);
     if ctx.tier == Tier::Thorough {
         match build_cli(true) {
             Ok(rb) => fw::par_for(cs.len() as u64, 1, |i| check(ctx, &rb, "release", &cs[i as usize], 100_000 + i as usize, false)),
@@ -373,7 +470,7 @@ pub fn run(ctx: &Ctx) -> i32 {
     ctx.exhaustive.store(ctx.tier == Tier::Thorough, std::sync::atomic::Ordering::Relaxed);
     fw::finish(
         ctx,
-        "the avra-rs binary built from the working tree, run in fresh scratch directories: 15 sources (valid with/without EEPROM data, with include, images over 64 KiB and over 1 MiB, empty, comment-only, EEPROM-only, syntax / pass-2 / range / capacity / .error / missing-include failures, missing source) x 5 stems (a.asm, a.b.asm, no extension, sub-directory, absolute path) x 6 option sets over -o/-e/-v (quick: a covering slice; thorough: complete, dev and release binaries, strace leg) + 5 output faults (missing directory, path is a directory, parent is a regular file, /dev/full, name too long) on either output; sentinel files at the default output places; distinct_nontrivial = distinct (source, stem, options, fault) tuples",
+        "the avra-rs binary built from the working tree, run in fresh scratch directories: 15 sources (valid with/without EEPROM data, with include, images over 64 KiB and over 1 MiB, empty, comment-only, EEPROM-only, syntax / pass-2 / range / capacity / .error / missing-include failures, missing source) x 5 stems (a.asm, a.b.asm, no extension, sub-directory, absolute path) x 6 option sets over -o/-e/-v (quick: a covering slice; thorough: complete, dev and release binaries, strace leg) + 5 output faults (missing directory, path is a directory, parent is a regular file, /dev/full, name too long) on either output; sentinel files at the default output places; plus source names that are not valid UTF-8 (outputs must bear the same bytes) and option sets that send both images to one path (must fail visibly, or the flash image must be where it was sent); distinct_nontrivial = distinct (source, stem, options, fault) tuples",
         &[
             "expected images come from build_file in process on the same file; files are decoded with refmodel/ihex.rs",
             "an empty flash image producing no file (message, exit 0) is accepted; HOME and XDG_CONFIG_HOME point into the scratch directory",
@@ -387,6 +484,12 @@ pub fn replay(ctx: &Ctx, case: &Value) -> i32 {
         Ok(b) => b,
         Err(_) => return 2,
     };
+    if case.get("odd_name_bytes").is_some() || case.get("clash_args").is_some() {
+        odd_names_and_clashes(ctx, &bin);
+        ctx.distinct(1);
+        ctx.distinct(2);
+        return fw::finish(ctx, "replay", &[]);
+    }
     let srcs = sources();
     let cs = cases(&srcs, Tier::Thorough);
     let mut n = 0;
